@@ -327,8 +327,11 @@ class DirectCollocation(SamplingMethod):
                     if k==-1 and is_same_expr(target, self.eval_at_control(stage, var, self.N-1)):
                         continue # quantity of the last control interval: keep the value of its start time, not that of tf
                     value_k = value
-                    if target.numel()*(self.N)==value.numel() or target.numel()*(self.N+1)==value.numel():
-                        value_k = value[:,k]
+                    # Array guess: one block of columns (as wide as the symbol) per interval (N blocks) or per node (N+1 blocks)
+                    c = target.shape[1]
+                    if value.shape[0]==target.shape[0] and value.shape[1] in (c*self.N, c*(self.N+1)):
+                        kk = k if k>=0 else value.shape[1]//c-1
+                        value_k = value[:,kk*c:(kk+1)*c]
                     try:
                         #print(target,value_k)
                         opti.set_initial(target, value_k, cache_advanced=True)
